@@ -231,4 +231,4 @@ def run(ctx):
                      'profiles x (real triaxial+mu_r | complex VTI); full '
                      'fine basis through restriction(), full coarse basis '
                      'through prolongation()',
-                time_cap=ctx.budget or (150 if q else 1500))
+                time_cap=ctx.budget or (600 if q else 3000))
